@@ -172,7 +172,7 @@ var anyType = reflect.TypeOf((*any)(nil)).Elem()
 
 // c12Build constructs the Go value and its model.
 func c12Build(s GSpec) gBuilt {
-	if s.E == nil && s.K != "static" && s.K != "casemap" && s.K != "samename" && s.K != "named" && s.K != "shared" {
+	if s.E == nil && s.K != "static" && s.K != "casemap" && s.K != "samename" && s.K != "named" && s.K != "shared" && s.K != "sibA" && s.K != "sibB" {
 		return c12BuildLeaf(s)
 	}
 	if s.K == "samename" {
@@ -190,7 +190,7 @@ func c12Build(s GSpec) gBuilt {
 			"M", vObj("k", vStr("v")), "Éa", vInt(3), "Ωb", vStr("w"))
 		return gBuilt{reflect.ValueOf(v), m, true, false}
 	}
-	if s.K == "shared" {
+	if s.K == "shared" || s.K == "sibA" || s.K == "sibB" {
 		// finite values whose parts share memory: the same map and slice twice, a slice that holds a shorter slice of
 		// its own array, rows that point back to the first row
 		m := map[string]any{"k": true}
@@ -216,6 +216,26 @@ func c12Build(s GSpec) gBuilt {
 		}
 		o := &outer{In: inner{K: 4}}
 		o.P = &o.In
+		// ... and so has a pointer to the first field of a struct that a sibling pointer leads to (both orders)
+		type acct struct {
+			ID    int
+			Owner string
+		}
+		type pgA struct {
+			Account *acct
+			TopID   *int
+		}
+		type pgB struct {
+			TopID   *int
+			Account *acct
+		}
+		ac := &acct{ID: 41, Owner: "ann"}
+		if s.K == "sibA" { // (values of their own: the order in which the entries of a Go map are converted is not fixed)
+			return gBuilt{reflect.ValueOf(pgA{Account: ac, TopID: &ac.ID}), vObj("Account", vObj("ID", vInt(41), "Owner", vStr("ann")), "TopID", vInt(41)), true, false}
+		}
+		if s.K == "sibB" {
+			return gBuilt{reflect.ValueOf(pgB{TopID: &ac.ID, Account: ac}), vObj("TopID", vInt(41), "Account", vObj("ID", vInt(41), "Owner", vStr("ann"))), true, false}
+		}
 		v := map[string]any{"twice": []any{m, m, in, in}, "selfslice": sl, "rows": rows, "firstfield": o}
 		r0 := vObj("N", vInt(0), "Parent", vNil())
 		model := vObj("twice", vArr(vObj("k", vBool(true)), vObj("k", vBool(true)), vArr(vInt(1), vInt(2)), vArr(vInt(1), vInt(2))),
@@ -342,7 +362,7 @@ func c12Specs(depth int) []GSpec {
 	for _, l := range levels {
 		all = append(all, l...)
 	}
-	all = append(all, GSpec{K: "static"}, GSpec{K: "casemap"}, GSpec{K: "samename"}, GSpec{K: "named"}, GSpec{K: "shared"}, GSpec{K: "dotsite"},
+	all = append(all, GSpec{K: "static"}, GSpec{K: "casemap"}, GSpec{K: "samename"}, GSpec{K: "named"}, GSpec{K: "shared"}, GSpec{K: "sibA"}, GSpec{K: "sibB"}, GSpec{K: "dotsite"},
 		GSpec{K: "slice", N: 2, E: &GSpec{K: "named"}}, GSpec{K: "ptr", E: &GSpec{K: "named"}}, GSpec{K: "anymap", N: 1, E: &GSpec{K: "named"}})
 	return all
 }
